@@ -4,6 +4,11 @@ import Driver.Proto
 # Driver.C15 — model answers for `det`, `solve`, `norm`, `qr` (exact rationals as `num/den` text)
 
 Inputs are integer arrays (`2,2:0,1,1,0`); the harness feeds the same integers to the real crate as `f64`.
+
+Robustness spellings (`xdet`, `xqr`, `xnorm`, `xsolve`): the same model definitions on the same integer array
+multiplied by an exact scale.  The trailing variant token is `<type>/<scaleA>/<scaleB>` with a scale spelled `1`,
+`2^-30`, `10^9` …; the element type only concerns the Rust side.  The answers are exact rationals of the scaled
+input (so the absolute `1e-12` test of `solve` is evaluated at the scaled values, as the code does).
 -/
 namespace Driver.C15
 open ArrModel ArrModel.C15 Driver
@@ -33,7 +38,7 @@ def unhex : List Char → Option (List Char)
     some (Char.ofNat (x * 16 + y) :: r)
   | _ => none
 
-/-- `none` | `inf` `ninf` `fro` `nuc` `i<k>` (enum spelling) | `s<hex>` (string spelling) -/
+/-- `none` | `inf` `ninf` `fro` `nuc` `i<k>` (enum spelling) | `s<hex>` (`&str` spelling) | `S<hex>` (`String` spelling) -/
 def parseOrdArg (s : String) : Option (Res (Option Ord)) :=
   if s == "none" then some (.ok none)
   else if s == "inf" then some (.ok (some .inf))
@@ -41,8 +46,44 @@ def parseOrdArg (s : String) : Option (Res (Option Ord)) :=
   else if s == "fro" then some (.ok (some .fro))
   else if s == "nuc" then some (.ok (some .nuc))
   else if s.startsWith "i" then (parseInt? (s.drop 1).toString).map fun v => .ok (some (.int v))
-  else if s.startsWith "s" then (unhex (s.drop 1).toString.toList).map fun cs => (parseOrd (String.ofList cs)).map some
+  else if s.startsWith "s" || s.startsWith "S" then (unhex (s.drop 1).toString.toList).map fun cs => (parseOrd (String.ofList cs)).map some
   else none
+
+/-- `b^e` for an integer exponent (exact) -/
+def ratPowInt (b : Rat) (e : Int) : Rat :=
+  let p : Rat := (List.replicate e.natAbs b).foldl (· * ·) 1
+  if e < 0 then 1 / p else p
+
+/-- `1` | `<base>^<exp>` -/
+def parseScale? (s : String) : Option Rat :=
+  match s.splitOn "^" with
+  | [one] => (parseInt? one).map fun v => (v : Rat)
+  | [b, e] => do
+    let b ← parseNat? b; let e ← parseInt? e
+    if b = 0 then none else some (ratPowInt (b : Rat) e)
+  | _ => none
+
+/-- `<type>/<scaleA>/<scaleB>` -> the two scales -/
+def parseVariant? (s : String) : Option (Rat × Rat) :=
+  match s.splitOn "/" with
+  | [_, sa, sb] => do let sa ← parseScale? sa; let sb ← parseScale? sb; some (sa, sb)
+  | _ => none
+
+def scaleArr (s : Rat) (a : Arr Rat) : Arr Rat := ⟨a.elems.map (· * s), a.shape⟩
+
+def handleNorm (a : Arr Rat) (ord axis keep : String) : Option String := do
+  let ord ← parseOrdArg ord
+  let axis ← parseOpt? parseIntList? axis
+  let keep ← parseOpt? (fun s => if s == "true" then some true else if s == "false" then some false else none) keep
+  match ord with
+  | .ok o =>
+    -- negative orders of the vector arm go through `float_power` with a negative exponent: not modelled
+    let isNegInt := match o with | some (.int v) => decide (v < 0) | _ => false
+    let oneAxis := match axis with | some ax => ax.length == 1 | none => a.shape.length == 1
+    if isNegInt && oneAxis then some "open"
+    else some (showRes showSymArr (normArr a o axis (keep.getD false)))
+  | .err e => some ("err " ++ e.name)
+  | .panic => some "panic"
 
 def square? (a : Arr Rat) : Option Nat :=
   match a.shape with
@@ -59,18 +100,19 @@ def handle (op : String) (args : List String) : Option String :=
     some (showRes showRatArr (solveArr (toRatArr a) (toRatArr b)))
   | "norm", [a, ord, axis, keep] => do
     let a ← parseArr? a
-    let ord ← parseOrdArg ord
-    let axis ← parseOpt? parseIntList? axis
-    let keep ← parseOpt? (fun s => if s == "true" then some true else if s == "false" then some false else none) keep
-    match ord with
-    | .ok o =>
-      -- negative orders of the vector arm go through `float_power` with a negative exponent: not modelled
-      let isNegInt := match o with | some (.int v) => decide (v < 0) | _ => false
-      let oneAxis := match axis with | some ax => ax.length == 1 | none => a.shape.length == 1
-      if isNegInt && oneAxis then some "open"
-      else some (showRes showSymArr (normArr (toRatArr a) o axis (keep.getD false)))
-    | .err e => some ("err " ++ e.name)
-    | .panic => some "panic"
+    handleNorm (toRatArr a) ord axis keep
+  | "xnorm", [a, ord, axis, keep, v] => do
+    let a ← parseArr? a; let (sa, _) ← parseVariant? v
+    handleNorm (scaleArr sa (toRatArr a)) ord axis keep
+  | "xdet", [a, v] => do
+    let a ← parseArr? a; let (sa, _) ← parseVariant? v
+    some (showRes showRatArr (detArr (scaleArr sa (toRatArr a))))
+  | "xsolve", [a, b, v] => do
+    let a ← parseArr? a; let b ← parseArr? b; let (sa, sb) ← parseVariant? v
+    some (showRes showRatArr (solveArr (scaleArr sa (toRatArr a)) (scaleArr sb (toRatArr b))))
+  | "xqr", [a, v] => do
+    let a ← parseArr? a; let (sa, _) ← parseVariant? v
+    some (showRes (fun l => ";".intercalate (l.map showQR)) (qrArr (scaleArr sa (toRatArr a))))
   | "qr", [a] => do
     let a ← parseArr? a
     some (showRes (fun l => ";".intercalate (l.map showQR)) (qrArr (toRatArr a)))
